@@ -17,7 +17,6 @@ import (
 	"github.com/relab/gorums/ordering"
 	spb "google.golang.org/genproto/googleapis/rpc/status"
 	"google.golang.org/grpc"
-	"google.golang.org/grpc/codes"
 	"google.golang.org/grpc/credentials/insecure"
 	"google.golang.org/grpc/status"
 	"google.golang.org/protobuf/encoding/protowire"
@@ -71,6 +70,8 @@ type Case struct {
 type StatusStep struct {
 	Code int32  `json:"code"`
 	Text string `json:"text,omitempty"`
+	// Wrap: the handler returns the status error wrapped (see scen.Behaviour.WrapErr)
+	Wrap int `json:"wrap,omitempty"`
 }
 
 var (
@@ -450,6 +451,7 @@ func gen(t *rapid.T) Case {
 			}
 			if st.Code != 0 {
 				st.Text = rapid.OneOf(rapid.StringN(0, 40, 200), rapid.SampledFrom([]string{"", "", "boom", "line1\nline2", "ünïcödé ☃"})).Draw(t, fmt.Sprintf("text%d", i))
+				st.Wrap = rapid.SampledFrom([]int{0, 0, 0, 1, 2, 3}).Draw(t, fmt.Sprintf("wrap%d", i))
 			}
 			c.Seq = append(c.Seq, st)
 		}
@@ -785,7 +787,11 @@ func runE2EStatus(c Case) vt.Verdict {
 	for i, stp := range seq {
 		tok := tok0 + uint64(i)
 		where := fmt.Sprintf("call %d of %d", i+1, len(seq))
-		cl.SetBehaviour(0, tok, scen.Behaviour{ErrCode: int(stp.Code), ErrMsg: stp.Text})
+		bh := scen.Behaviour{ErrCode: int(stp.Code), ErrMsg: stp.Text, WrapErr: stp.Wrap}
+		cl.SetBehaviour(0, tok, bh)
+		// the handler's error status is what grpc's status.FromError makes of the error it returns:
+		// for a wrapped status error the wrapped code with the full error text
+		want, _ := status.FromError(scen.HandlerErr(bh, tok, 0))
 		call := client.NewCall(i, tok, uint64(i+1), scen.CallSpec{Kind: "RPC", Node: 0, Ctx: "cancel"})
 		go call.Issue()
 		if r, _ := scen.Await(call.DoneCh(), scen.B); r != scen.Done {
@@ -809,8 +815,8 @@ func runE2EStatus(c Case) vt.Verdict {
 		if !ok {
 			return vt.Fail("C13/e2e/status-lost", "%s: caller's error is not a status error: %v", where, call.Err)
 		}
-		if st.Code() != codes.Code(stp.Code) || st.Message() != stp.Text {
-			return vt.Fail("C13/e2e/status-changed", "%s: handler status (code %d, %q) reached the caller as (code %d, %q)", where, stp.Code, stp.Text, st.Code(), st.Message())
+		if st.Code() != want.Code() || st.Message() != want.Message() {
+			return vt.Fail("C13/e2e/status-changed", "%s: handler status (code %d, %q; wrap %d) reached the caller as (code %d, %q)", where, want.Code(), want.Message(), stp.Wrap, st.Code(), st.Message())
 		}
 		if len(st.Proto().GetDetails()) != 0 {
 			return vt.Fail("C13/e2e/status-changed", "%s: handler status without details reached the caller with %d details", where, len(st.Proto().GetDetails()))
@@ -833,7 +839,7 @@ func max(a, b int) int {
 func TestProp(t *testing.T) {
 	vt.Main(t, vt.Spec[Case]{
 		ID:           "C13",
-		Rule:         "rapid-generated cases in five modes: (roundtrip) for every method registered in the test binary (puppet service with a message of every scalar kind, nested/repeated/map/oneof/enum/unknown fields, plus the repository's own test services) and both directions a reflectively generated payload and metadata (any message id, status with any code/text/Any details) must survive Marshal+Unmarshal with equal content and the right type; (decode) frames derived from valid ones by structure-aware mutation (truncation at boundaries, hostile/short/long length prefixes, swapped or spliced sections, method replaced by the name of every non-method registry entity / unknown / empty / long / non-UTF-8 names, byte flips) and plain noise must never panic; (e2e-frame) the same frames written raw to a live server's NodeStream must not panic its stream goroutine and a following probe must be answered; (e2e-client) a raw grpc server without gorums code answers the first request of a fresh manager (RPC, quorum, per-node, custom-type, async, correctable, stream, unicast or multicast call) with a generated response-direction frame (every mutation of the decode mode; message id that of the call in 3 of 4 cases) and every later request with a well-formed reply: the call may fail or succeed but nothing may panic or crash the client process, and a later RPC to the node must be answered; (e2e-status) 1-6 consecutive RPCs to one node through one manager whose handlers fail with generated codes 1-16 and messages (empty, multi-line, non-ASCII, random) or succeed (after and between failures): every status code and message must reach its caller unchanged and without details, and a success must arrive as a success. Non-trivial = payload with a populated non-scalar field or status with details (roundtrip), a frame that differs from a valid one but is not noise (decode/e2e-frame), every e2e-status case",
+		Rule:         "rapid-generated cases in five modes: (roundtrip) for every method registered in the test binary (puppet service with a message of every scalar kind, nested/repeated/map/oneof/enum/unknown fields, plus the repository's own test services) and both directions a reflectively generated payload and metadata (any message id, status with any code/text/Any details) must survive Marshal+Unmarshal with equal content and the right type; (decode) frames derived from valid ones by structure-aware mutation (truncation at boundaries, hostile/short/long length prefixes, swapped or spliced sections, method replaced by the name of every non-method registry entity / unknown / empty / long / non-UTF-8 names, byte flips) and plain noise must never panic; (e2e-frame) the same frames written raw to a live server's NodeStream must not panic its stream goroutine and a following probe must be answered; (e2e-client) a raw grpc server without gorums code answers the first request of a fresh manager (RPC, quorum, per-node, custom-type, async, correctable, stream, unicast or multicast call) with a generated response-direction frame (every mutation of the decode mode; message id that of the call in 3 of 4 cases) and every later request with a well-formed reply: the call may fail or succeed but nothing may panic or crash the client process, and a later RPC to the node must be answered; (e2e-status) 1-6 consecutive RPCs to one node through one manager whose handlers fail with generated codes 1-16 and messages (empty, multi-line, non-ASCII, random), returned as a status error or wrapped (%w once or twice, errors.Join), or succeed (after and between failures): every status code and message must reach its caller unchanged and without details, and a success must arrive as a success. Non-trivial = payload with a populated non-scalar field or status with details (roundtrip), a frame that differs from a valid one but is not noise (decode/e2e-frame), every e2e-status case",
 		Gen:          gen,
 		Run:          run,
 		TrackCurrent: true,
